@@ -41,10 +41,18 @@ def gen_inputs(ctx):
     # a disulfide bridge (non-titrating cysteines stay out of every charge curve) and same-label twin residues
     out.append(("ss-bridge", pdbgen.text(pdbgen.ss_fragment())))
     for i in range(2 if ctx.quick() else 20):
-        for _ in range(20):
-            lines, ids = pdbgen.multichain(rnd, nchains=1)
-            tw = pdbgen.same_type_twins(rnd, lines)
-            if tw is not None:
+        for _ in range(200):
+            lines, ids = pdbgen.multichain(rnd, nchains=rnd.randint(1, 2), separation=15.0)
+            tw = pdbgen.same_type_twins(rnd, lines, types=("LYS", "ASP", "GLU", "ARG", "TYR", "HIS"))
+            if tw is None:
+                continue
+            o = observe.run(pdbgen.text(tw), [], want_text=False)
+            if o.error:
+                continue
+            tg = [g for g in o.confs["AVR"] if g["titratable"]]
+            labs = [g["label"] for g in tg]
+            # two titratable groups with one printed label, and a total charge that changes sign
+            if any(labs.count(l) > 1 for l in labs) and any(g["charge"] > 0 for g in tg) and any(g["charge"] < 0 for g in tg):
                 out.append(("twins%d" % i, pdbgen.text(tw)))
                 break
     # no titratable group at all: a lone glycine backbone without termini tags cannot be built from ATOMs; use a water-free HETATM carbon
